@@ -48,6 +48,25 @@ type vectorSelector struct {
 
 	shard     int
 	numShards int
+
+	// selectTimestamp makes the operator yield the timestamp (in seconds) of
+	// the selected sample instead of its value.
+	selectTimestamp bool
+}
+
+// NewTimestampSelector creates a vector selector which yields, for each series and step, the
+// timestamp of the selected sample in seconds. It serves timestamp() over a vector selector,
+// which is defined on the samples' own timestamps rather than on the evaluation time.
+func NewTimestampSelector(
+	pool *model.VectorPool,
+	selector engstore.SeriesSelector,
+	queryOpts *query.Options,
+	offset time.Duration,
+	shard, numShards int,
+) model.VectorOperator {
+	o := NewVectorSelector(pool, selector, queryOpts, offset, shard, numShards).(*vectorSelector)
+	o.selectTimestamp = true
+	return o
 }
 
 // NewVectorSelector creates operator which selects vector of series.
@@ -123,11 +142,14 @@ func (o *vectorSelector) Next(ctx context.Context) ([]model.StepVector, error) {
 			if len(vectors) <= currStep {
 				vectors = append(vectors, o.vectorPool.GetStepVector(seriesTs))
 			}
-			_, v, ok, err := selectPoint(series.samples, seriesTs, o.lookbackDelta, o.offset)
+			t, v, ok, err := selectPoint(series.samples, seriesTs, o.lookbackDelta, o.offset)
 			if err != nil {
 				return nil, err
 			}
 			if ok {
+				if o.selectTimestamp {
+					v = float64(t) / 1000
+				}
 				vectors[currStep].SampleIDs = append(vectors[currStep].SampleIDs, series.signature)
 				vectors[currStep].Samples = append(vectors[currStep].Samples, v)
 			}
